@@ -44,7 +44,7 @@ Lemma insert_lawful k v w :
                   r = option_map snd (snd (l_insert ck (elems (self w)) k v false)) /\
                   logged w w' (match snd (l_insert ck (elems (self w)) k v false) with
                                | Some (k', _) => ev_drops (idK E k') | None => [] end))
-     (fun w' => self w' = self w /\ logged w w' (ev_drops (idK E k ++ idV E v)) /\
+     (fun w' => self w' = self w /\ logged w w' (ev_drops (idV E v ++ idK E k)) /\
                 find_idx ck (ck k) (elems (self w)) = None /\ len (self w) = cap (self w)) w.
 Proof.
   intros Hw. unfold insert. apply wp_bind.
@@ -63,7 +63,7 @@ Lemma insert_key_value_lawful k v w :
      (fun r w' => WF (self w') /\ cap (self w') = cap (self w) /\ log w' = log w /\
                   elems (self w') = fst (fst (l_insert ck (elems (self w)) k v true)) /\
                   r = snd (l_insert ck (elems (self w)) k v true))
-     (fun w' => self w' = self w /\ logged w w' (ev_drops (idK E k ++ idV E v)) /\
+     (fun w' => self w' = self w /\ logged w w' (ev_drops (idV E v ++ idK E k)) /\
                 find_idx ck (ck k) (elems (self w)) = None /\ len (self w) = cap (self w)) w.
 Proof.
   intros Hw. unfold insert_key_value. apply wp_bind.
@@ -82,7 +82,7 @@ Lemma insert_ii_for_full_lawful k v w :
         | Some i => exists k0 v0, nth_error (elems (self w)) i = Some (k0, v0) /\
                     r = Some (i, (k, v0)) /\ WF (self w') /\ cap (self w') = cap (self w) /\
                     log w' = log w /\ elems (self w') = upd (elems (self w)) i (k0, v)
-        | None => r = None /\ self w' = self w /\ logged w w' (ev_drops (idK E k ++ idV E v))
+        | None => r = None /\ self w' = self w /\ logged w w' (ev_drops (idV E v ++ idK E k))
         end)
      (fun _ => False) w.
 Proof.
@@ -97,9 +97,8 @@ Proof.
     exists k0, v0. split; [exact Hp|]. split; [reflexivity|].
     split; [apply WF_set_slot_some; auto|]. split; [apply cap_set_slot|]. split; [exact Hl1|].
     rewrite elems_set_slot by auto. reflexivity.
-  - apply wp_bind. eapply wp_mono; [apply (drop_pair_lawful E ck cq HL) | | intros ? []]; cbn beta.
-    intros _ w2 [Hs2 Hlg]. apply wp_ret. split; [reflexivity|]. split; [congruence|].
-    cbn [fst snd] in Hlg. eapply logged_eq_l; [exact Hl1 | exact Hlg].
+  - apply wp_bind. eapply wp_mono; [apply (drop_args_lawful E ck cq HL) | | intros ? []]; cbn beta.
+    intros _ w2 [Hs2 Hlg]. apply wp_ret. split; [reflexivity|]. split; [congruence|]. eapply logged_eq_l; [exact Hl1 | exact Hlg].
 Qed.
 
 Lemma checked_insert_lawful k v w :
@@ -113,7 +112,7 @@ Lemma checked_insert_lawful k v w :
         | None => if len (self w) <? cap (self w)
                   then elems (self w') = elems (self w) ++ [(k, v)] /\ r = Some None /\ log w' = log w
                   else elems (self w') = elems (self w) /\ self w' = self w /\ r = None /\
-                       logged w w' (ev_drops (idK E k ++ idV E v))
+                       logged w w' (ev_drops (idV E v ++ idK E k))
         end)
      (fun _ => False) w.
 Proof.
